@@ -228,6 +228,10 @@ func (sta *State) UsedRandomCleaner() {
 }
 
 func (sta *State) registerRandom(r [32]byte) bool {
+	// X25519 ignores the most significant bit of the public value (RFC 7748 section 5), so two
+	// randoms differing only in that bit yield the same shared secret and authenticate the same
+	// payload: they must share one replay cache entry
+	r[31] &= 0x7f
 	sta.usedRandomM.Lock()
 	_, used := sta.UsedRandom[r]
 	sta.UsedRandom[r] = sta.WorldState.Now().Unix()
